@@ -17,11 +17,13 @@ import SoyVerif.Spec.JsSemRef
 import SoyVerif.Spec.Eval
 import SoyVerif.Model.JsGen
 import SoyVerif.Props.C04
+import SoyVerif.Lemmas.JsGenTop
 
 namespace SoyVerif.Props.C04c
 open SoyVerif SoyVerif.Model SoyVerif.Model.JsGen SoyVerif.Spec.JsSemRef
 open SoyVerif.Spec.JsSem (JsOp exact)
 open SoyVerif.Props.C04 (opOf opSym jsOp_sym)
+open SoyVerif.Lemmas.JsGenSpec (ScopeShape ScopeOk scopeOk_shape)
 
 /-! ## translation -/
 
@@ -1430,10 +1432,6 @@ theorem jsname_inj {k k' use use' : Bytes} {m m' : Nat} (hk : k.contains 36 = fa
     simpa [Scope.jsname, List.append_assoc] using h
   rw [← h1, ← h2, h']
 
-/-- the generator's scope maps every Soy name to a name generated FOR IT -/
-def ScopeShape (sc : Scope) : Prop :=
-  ∀ k g, k.contains 36 = false → sc.lookup k = some g → ∃ use m, g = Scope.jsname k use m
-
 /-- FRESHNESS: under `ScopeShape`, the local generated for `x` is not the local of another variable -/
 theorem fresh_of_shape (sc : Scope) (hs : ScopeShape sc) (x use : Bytes) (n : Nat) (hx : x.contains 36 = false) :
     ∀ k g', k ≠ x → k.contains 36 = false → sc.lookup k = some g' → g' ≠ Scope.jsname x use n := by
@@ -1541,6 +1539,53 @@ example : (toAst sampleScope sampleExpr).map (eval sampleJEnv) = some (.val (.nu
 example : (toAst ⟨[[]], 0⟩ (.dataRef 0 b!"p" (.cons (.key 0 true b!"a") .nil))).map
     (eval { optData := [(b!"p", .null)], ijData := none, locals := [] }) = some (.val .null) := rfl
 
+/-! ## `ScopeShape` along a whole walk
+
+  The state invariant of the safety induction (Lemmas/JsGenSafe: `J b s` = the scope is `ScopeOk`,
+  the import map is well-shaped, `bufferName = b`) now contains, frame by frame, that every binding
+  of a Soy name holds a name generated FOR it (`NameFor`, Lemmas/JsGenSpec); `makevar`, `genname` +
+  `bind`, `pushForRange`, `pushForEach`, `push` and `pop` preserve it (`makevar_ok` … `pop_ok`).
+  `Spec P (J b) (J b') m Q` threads the invariant through every `>>=`, so EVERY state in which a
+  sub-walk of the generator starts or ends satisfies it; the theorems below read that off. -/
+
+open SoyVerif.Lemmas.JsGenSafe (J CmdWN BlockWN ExprWN s_walkCmd s_walkBlock s_walkExpr s_getScope POk)
+open SoyVerif.Lemmas.JsGenSpec (IsIdent Spec)
+open SoyVerif.Lemmas.JsGenTop (FileWN top_visitSoyFile)
+
+/-- FULL (`walk_scopeShape`, commands): walking any well-named command or block from a state that
+    satisfies the invariant ends in a state whose scope satisfies `ScopeShape` -/
+theorem walk_scopeShape (sk : List Bytes → List Bytes) (o : Options) (c : Cmd) (hc : CmdWN c) (b : Bytes) (hb : IsIdent b)
+    (s s' : St) (ps : List Piece) (hs : J b s) (h : walkCmd sk o c s = .ok ((), ps, s')) : ScopeShape s'.scope :=
+  scopeOk_shape ((s_walkCmd sk o c hc b hb s () ps s' hs h).2.1.1.1)
+
+theorem walkBlock_scopeShape (sk : List Bytes → List Bytes) (o : Options) (blk : Block) (hc : BlockWN blk) (b : Bytes)
+    (hb : IsIdent b) (s s' : St) (ps : List Piece) (hs : J b s) (h : walkBlock sk o blk s = .ok ((), ps, s')) :
+    ScopeShape s'.scope :=
+  scopeOk_shape ((s_walkBlock sk o blk hc b hb s () ps s' hs h).2.1.1.1)
+
+/-- … the scope an expression translation READS (every `getScope` of the generator) satisfies it -/
+theorem getScope_shape (b : Bytes) : Spec POk (J b) (J b) getScope ScopeShape :=
+  (s_getScope (b := b)).post (fun _ h => scopeOk_shape h)
+
+/-- … and so does the scope after a whole well-named file, from the initial state of `Write` -/
+theorem file_scopeShape (sk : List Bytes → List Bytes) (o : Options) (f : SoyFile) (hf : FileWN f)
+    (s' : St) (ps : List Piece) (h : visitSoyFile sk o f initState = .ok ((), ps, s')) : ScopeShape s'.scope := by
+  have hinit : SoyVerif.Lemmas.JsGenSafe.Inv initState := by
+    constructor
+    · intro fr hfr
+      simp only [initState, List.mem_singleton] at hfr
+      subst hfr
+      exact SoyVerif.Lemmas.JsGenSpec.frameOk_nil
+    · intro kv hkv
+      cases hkv
+  exact scopeOk_shape ((top_visitSoyFile sk o f hf initState () ps s' hinit h).2.2.1)
+
+/-- FRESHNESS at every point of generation: in any state satisfying the invariant, the local
+    generated for a Soy name `x` differs from the local of every other visible Soy variable -/
+theorem fresh_at (b : Bytes) (s : St) (hs : J b s) (x use : Bytes) (n : Nat) (hx : x.contains 36 = false) :
+    ∀ k g', k ≠ x → k.contains 36 = false → s.scope.lookup k = some g' → g' ≠ Scope.jsname x use n :=
+  fresh_of_shape s.scope (scopeOk_shape hs.1.1) x use n hx
+
 /-! ## what remains unproved (C04, expression and command level)
 
   * `$ij` references, accesses by a computed key `$x[$e]`, a null-safe access that is not the last
@@ -1553,8 +1598,6 @@ example : (toAst ⟨[[]], 0⟩ (.dataRef 0 b!"p" (.cons (.key 0 true b!"a") .nil
   * `range`-loops in `envRel_*` (only `{let}` and `{foreach}` are instantiated; `{for … in range}` is
     the same `envRel_bind` with `pushForRange`), let-CONTENT variables (their value is the text the
     block rendered: command level);
-  * the invariant `ScopeShape` is shown to be kept by `makevar` only (`makevar_shape`); that every
-    scope the generator builds while walking a well-named file satisfies it is not proved;
   * every command (control flow, calls, messages) and the parse of the emitted text: decided by
     execution (C04exec), not by a theorem. -/
 
